@@ -467,6 +467,35 @@ async def tz_sweep(chk, rng, thorough):
     await a.finish()
 
 
+async def hint_then_now(chk, rng, count):
+    """a SET_VAR(time_zone=...) hint is over when its statement is: a later statement of the SAME command text reads the
+    session's own zone again -- through @@time_zone and through NOW() / CURDATE() / CURTIME() alike"""
+    zones = [("UTC", 0), ("-02:00", -120), ("+05:30", 330), ("+13:00", 780), ("-11:00", -660)]
+    for i in range(count):
+        (sess, soff), (hint, hoff) = rng.sample(zones, 2)
+        app = App()
+        a = Peer(mkserver([app]))
+        await a.login()
+        await run_sql(a, "SET time_zone = '%s'" % sess)
+        first = rng.choice(["SELECT /*+ SET_VAR(time_zone='%s') */ 1" % hint, "SELECT /*+ SET_VAR(time_zone='%s') */ NOW()" % hint,
+                            "SELECT /*+ SET_VAR(time_zone='%s') SET_VAR(sql_mode='ANSI') */ a FROM t" % hint])
+        text = first + "; SELECT NOW(), CURDATE(), CURTIME(), @@time_zone"
+        st, rows = await run_sql(a, text)
+        utc = datetime.datetime.now(datetime.timezone.utc).replace(tzinfo=None)
+        await a.finish()
+        d = dict(session_time_zone=sess, command_text=text)
+        chk.case(("hint-then-now", sess, hint, first[:40]))
+        chk.count("hint-then-now")
+        if st != "rs" or not rows or len(rows[0]) != 4:
+            chk.fail("a command text of a hinted statement followed by a plain one was not answered with the last statement's result", d, dict(status=st, rows=rows))
+            continue
+        got = datetime.datetime.strptime(rows[0][0], "%Y-%m-%d %H:%M:%S")
+        delta = (got - utc).total_seconds() / 60.0
+        if rows[0][3] != sess or abs(delta - soff) > 0.2 or rows[0][1] != got.strftime("%Y-%m-%d") or rows[0][2] != got.strftime("%H:%M:%S"):
+            chk.fail("a SET_VAR hint outlived its statement", d, dict(now=rows[0][0], curdate=rows[0][1], curtime=rows[0][2], time_zone=rows[0][3], utc=str(utc),
+                                                                   session_offset_min=soff, hint_offset_min=hoff))
+
+
 async def version_case(chk):
     """the handshake announces the session's `version` variable"""
     class VApp(App):
@@ -529,6 +558,7 @@ def main():
     async def go():
         await version_case(chk)
         await tz_sweep(chk, rng, chk.thorough)
+        await hint_then_now(chk, random.Random(chk.seed * 7919 + 1414), 12 if not chk.thorough else 200)      # its own stream: the programs below keep theirs
         alllines, allexp = [], []
         progs = []
         for i in range(nprog):
